@@ -53,6 +53,8 @@ type Mod[T any] struct {
 	// probe: one request on res; returns whether it was blocked and by which rule
 	Probe  func(res string) (blocked bool, by *T)
 	Blocks func(t *T) bool // the rule rejects the probe request whatever the history
+	// StatKey: the statistic parameters of a rule (two rules with equal keys may share statistics)
+	StatKey func(t *T) string
 	// separate getter map (circuit breaker): getters may report rules without controller
 	SeparateReported bool
 	Preface          func() string // extra constructor arguments (flow: constants)
@@ -275,17 +277,7 @@ func Run[T any](m *Mod[T], c Case[T], probe bool) []Obs[T] {
 
 // CoqCase prints the case with the implementation's observations.
 func CoqCase[T any](m *Mod[T], c Case[T], obs []Obs[T]) string {
-	ri := func(s string) int64 {
-		for i, n := range c.Res {
-			if n == s {
-				return int64(i)
-			}
-		}
-		if strings.HasSuffix(s, "-ref") {
-			return 9
-		}
-		return 8 // a resource outside the case's universe
-	}
+	ri := resIndex(c.Res)
 	rl := func(ts []*T) string {
 		var it []string
 		for _, t := range ts {
@@ -336,7 +328,7 @@ func CoqCase[T any](m *Mod[T], c Case[T], obs []Obs[T]) string {
 // Monitor states C13 directly on the implementation's observations, with its own ledger.
 func Monitor[T any](m *Mod[T], c Case[T], obs []Obs[T], rep *emit.Report) (nontrivial bool) {
 	expected := make([][]*T, c.NRes+1) // per resource: valid, buildable rules of the latest effective load
-	fail := func(clause, sig, detail string) { rep.Fail(c.ID, clause, sig, m.Name+": "+detail, c) }
+	fail := func(clause, sig, detail string) { rep.Fail(c.ID, clause, sig, m.Name+": "+detail, InputOf(m, c)) }
 	sawInvalid, sawReuse, sawUnchanged := false, false, false
 	for k, o := range c.Ops {
 		ob := obs[k]
@@ -354,11 +346,11 @@ func Monitor[T any](m *Mod[T], c Case[T], obs []Obs[T], rep *emit.Report) (nontr
 			}
 		}
 		// identical reload reports unchanged
-		if o.Rep && nan && ob.Changed && (o.Kind == "all" || (len(o.Rules) > 0 && o.Res > 0)) {
+		if o.Rep && nan && ob.Changed && (o.Kind == "all" || o.Res > 0) {
 			// known finding: a NaN threshold passes IsValidRule but is never equal to itself
 			fail("C13_identical_reload_unchanged", "nan-threshold-identical-reload-reports-changed", fmt.Sprintf("op %d repeats op %d (a rule has a NaN threshold) and returned changed", k, k-1))
 		}
-		if o.Rep && !nan && (o.Kind == "all" || (len(o.Rules) > 0 && o.Res > 0)) {
+		if o.Rep && !nan && (o.Kind == "all" || o.Res > 0) {
 			sawUnchanged = true
 			if ob.Changed || ob.Err {
 				fail("C13_identical_reload_unchanged", "identical-reload-reports-changed", fmt.Sprintf("op %d repeats op %d with equal rules but returned changed=%v err=%v", k, k-1, ob.Changed, ob.Err))
@@ -371,7 +363,10 @@ func Monitor[T any](m *Mod[T], c Case[T], obs []Obs[T], rep *emit.Report) (nontr
 				return
 			}
 		}
-		if ob.Changed && !ob.Err {
+		if !ob.Err {
+			// the ledger follows the arguments of every load that did not fail, also of one that
+			// reported 'unchanged': then the arguments equal the cached ones, so the same rules must
+			// be in force (a wrong 'unchanged' shows up as enforced != valid(latest))
 			filt := func(res int, only bool) []*T {
 				var v []*T
 				for _, t := range o.Rules {
@@ -395,8 +390,9 @@ func Monitor[T any](m *Mod[T], c Case[T], obs []Obs[T], rep *emit.Report) (nontr
 			} else {
 				expected[o.Res] = filt(o.Res, false)
 			}
-		} else if !ob.Err {
-			// unchanged: the whole observable state must be what it was
+		}
+		if !ob.Changed {
+			// unchanged (or rejected): the whole observable state must be what it was
 			if k > 0 && !sameSnaps(m, obs[k-1].Snaps, ob.Snaps) {
 				fail("C13_unchanged_noop", "unchanged-load-changed-state", fmt.Sprintf("op %d returned unchanged but the enforced rules differ from before", k))
 				return
@@ -428,23 +424,8 @@ func Monitor[T any](m *Mod[T], c Case[T], obs []Obs[T], rep *emit.Report) (nontr
 				}
 			}
 			if !getOK {
-				sig := "getters-differ-from-enforced"
-				if m.SeparateReported && len(sn.Get) > len(sn.Enf) {
-					// every surplus reported rule is valid but not buildable?
-					extra := 0
-					for i := range sn.Get {
-						if !m.Buildable(&sn.Get[i], c.Res[sn.Res]) {
-							extra++
-						}
-					}
-					if extra == len(sn.Get)-len(sn.Enf) {
-						sig = "breaker-getter-reports-rule-without-breaker"
-					}
-				}
-				fail("C13_getters_eq_enforced", sig, fmt.Sprintf("op %d res %d: getter reports %d rules, %d enforced", k, sn.Res, len(sn.Get), len(sn.Enf)))
-				if sig == "getters-differ-from-enforced" {
-					return
-				}
+				fail("C13_getters_eq_enforced", "getters-differ-from-enforced", fmt.Sprintf("op %d res %d: getter reports %d rules, %d enforced (or a reported rule differs from the enforced one at its position)", k, sn.Res, len(sn.Get), len(sn.Enf)))
+				return
 			}
 		}
 		// scope: a per-resource operation leaves the controllers of other resources untouched
@@ -519,8 +500,9 @@ func sameSnaps[T any](m *Mod[T], a, b []Snap[T]) bool {
 // (ID aside) equal to the k-th such rule enforced before the load is served by the same controller
 // object as that one; a new controller for a rule whose statistic parameters equal those of a
 // replaced rule's controller may take over that controller's statistics, never another's.
-func MonitorReuse[T any](m *Mod[T], c Case[T], obs []Obs[T], statKey func(t *T) string, rep *emit.Report) (nontrivial bool) {
-	fail := func(clause, sig, detail string) { rep.Fail(c.ID, clause, sig, m.Name+": "+detail, c) }
+func MonitorReuse[T any](m *Mod[T], c Case[T], obs []Obs[T], rep *emit.Report) (nontrivial bool) {
+	statKey := m.StatKey
+	fail := func(clause, sig, detail string) { rep.Fail(c.ID, clause, sig, m.Name+": "+detail, InputOf(m, c)) }
 	for k := 1; k < len(obs); k++ {
 		if !obs[k].Changed || obs[k].Err {
 			continue
@@ -583,3 +565,84 @@ func (o Obs[T]) effBefore(all []Obs[T], k int) int64 {
 
 // FStr prints a float for diagnostics.
 func FStr(f float64) string { return strconv.FormatFloat(f, 'g', -1, 64) }
+
+// InputOf renders a case as a JSON-friendly value (rules in the notation of the Coq cases; the
+// case itself regenerates from (seed, id)).
+func InputOf[T any](m *Mod[T], c Case[T]) interface{} {
+	ri := resIndex(c.Res)
+	type jop struct {
+		Kind   string   `json:"kind"`
+		Res    string   `json:"resource,omitempty"`
+		Rules  []string `json:"rules"`
+		Repeat bool     `json:"identical_repeat_of_previous,omitempty"`
+	}
+	var ops []jop
+	for _, o := range c.Ops {
+		j := jop{Kind: "LoadRules", Rules: []string{}, Repeat: o.Rep}
+		if o.Kind == "res" {
+			j.Kind, j.Res = "LoadRulesOfResource", fmt.Sprintf("%d:%q", o.Res, c.Res[o.Res])
+		}
+		for _, t := range o.Rules {
+			if t == nil {
+				j.Rules = append(j.Rules, "nil")
+			} else {
+				j.Rules = append(j.Rules, m.Coq(t, ri))
+			}
+		}
+		ops = append(ops, j)
+	}
+	return map[string]interface{}{"id": c.ID, "module": c.Mod, "resources": c.Res, "ops": ops}
+}
+
+// ObservedOf renders the observations as a JSON-friendly value.
+func ObservedOf[T any](m *Mod[T], c Case[T], obs []Obs[T]) interface{} {
+	ri := resIndex(c.Res)
+	var out []interface{}
+	for _, ob := range obs {
+		o := map[string]interface{}{"changed": ob.Changed, "err": ob.Err, "panicked": ob.Panicked}
+		var snaps []interface{}
+		for _, sn := range ob.Snaps {
+			var g, e []string
+			for i := range sn.Get {
+				g = append(g, m.Coq(&sn.Get[i], ri))
+			}
+			for i := range sn.Enf {
+				st := "-"
+				if sn.Enf[i].Stat != nil {
+					st = sn.Enf[i].Stat.Coq()
+				}
+				e = append(e, fmt.Sprintf("ctrl %s stat %s rule %s", sn.Enf[i].ID.Coq(), st, m.Coq(&sn.Enf[i].Rule, ri)))
+			}
+			snaps = append(snaps, map[string]interface{}{"res": sn.Res, "getter": g, "in_force": e})
+		}
+		o["per_resource"] = snaps
+		o["get_rules_count"] = len(ob.All)
+		var pr []interface{}
+		for _, p := range ob.Probes {
+			by := "-"
+			if p.By != nil {
+				by = m.Coq(p.By, ri)
+			}
+			pr = append(pr, map[string]interface{}{"res": p.Res, "blocked": p.Blocked, "by": by})
+		}
+		if pr != nil {
+			o["probes"] = pr
+		}
+		out = append(out, o)
+	}
+	return out
+}
+
+func resIndex(res []string) func(string) int64 {
+	return func(s string) int64 {
+		for i, n := range res {
+			if n == s {
+				return int64(i)
+			}
+		}
+		if strings.HasSuffix(s, "-ref") {
+			return 9
+		}
+		return 8 // a resource outside the case's universe
+	}
+}
